@@ -15,7 +15,8 @@ Import ListNotations.
 Local Open Scope string_scope.
 Local Notation length := List.length.
 
-Record c19case := mkCase { cs_conv : convertor; cs_topic : string; cs_marker : bool; cs_msgs : list kmsg }.
+(* cs_conv: the regenerated converter (model); cs_spec: the intended one (oracle) *)
+Record c19case := mkCase { cs_conv : convertor; cs_spec : convertor; cs_topic : string; cs_marker : bool; cs_msgs : list kmsg }.
 
 (* ---------------------------------------------------------------- parsing *)
 Fixpoint parse_many {A} (p : list string -> option (A * list string)) (n : nat) (t : list string)
@@ -99,9 +100,10 @@ Fixpoint parse_kmsgs (fuel : nat) (t : list string) : option (list kmsg) :=
 Definition c19_parse (t : list string) : option c19case :=
   match t with
   | cv :: topic :: marker :: r =>
-      match (if String.eqb cv "1" then Some conv1 else if String.eqb cv "2" then Some conv2 else None),
+      match (if String.eqb cv "1" then Some (conv1, conv1_spec)
+             else if String.eqb cv "2" then Some (conv2, conv2_spec) else None),
             parse_kmsgs (S (length r)) r with
-      | Some c, Some ms => Some (mkCase c topic (String.eqb marker "utf8ok") ms)
+      | Some (c, sp), Some ms => Some (mkCase c sp topic (String.eqb marker "utf8ok") ms)
       | _, _ => None
       end
   | _ => None
@@ -227,7 +229,7 @@ Definition C19_holds_on (cs : c19case) (obs : list string) : bool :=
     | Some (n, panicked, x, items) =>
         negb panicked && String.eqb x "x=0" &&
         String.eqb n ("n=" ++ show_nat (length (all_records (cs_msgs cs)))) &&
-        all2 (item_ok (cs_conv cs) (cs_topic cs)) (all_records (cs_msgs cs)) items
+        all2 (item_ok (cs_spec cs) (cs_topic cs)) (all_records (cs_msgs cs)) items
     | None => false
     end
   else true.
